@@ -645,14 +645,14 @@ Definition array_split_n (k : nat) (l : list val) : list (list val) :=
   cut_sizes (repeat (S q) r ++ repeat q (k - r)) l.
 
 (* np.array_split(l, indices) for non-negative indices: l[0:i0], l[i0:i1], ..., l[ik:] *)
-Fixpoint split_at (prev : nat) (idx : list nat) (l : list val) : list (list val) :=
+Fixpoint split_at {A} (prev : nat) (idx : list nat) (l : list A) : list (list A) :=
   match idx with
   | [] => [skipn prev l]
   | i :: r => firstn (i - prev) (skipn prev l) :: split_at i r l
   end.
 
 (* the cycling while-loop of eval_dyad_split *)
-Fixpoint split_loop (fuel : nat) (sizes cur : list Z) (l : list val) : result (list (list val)) :=
+Fixpoint split_loop {A} (fuel : nat) (sizes cur : list Z) (l : list A) : result (list (list A)) :=
   match fuel with
   | O => NoFuel
   | S f' =>
@@ -687,7 +687,7 @@ Fixpoint multiples (fuel : nat) (a0 cur len : nat) : list nat :=
   end.
 
 (* eval_dyad_split *)
-Definition m_split (a b : val) : res :=
+Definition m_split_gen (by_segment_size : bool) (a b : val) : res :=
   match as_members b with
   | Some (j, l) =>
       match l with
@@ -697,9 +697,9 @@ Definition m_split (a b : val) : res :=
           match ints_of al with
           | Some [a0] =>
               if zlen l <=? a0 then segs j [l]
-              else if split_by_segment_size && (a0 =? 0) then Err            (* range() arg 3 must not be zero *)
-              else if split_by_segment_size && (a0 <? 0) then segs j [l]     (* empty range: one segment *)
-              else if split_by_segment_size
+              else if by_segment_size && (a0 =? 0) then Err            (* range() arg 3 must not be zero *)
+              else if by_segment_size && (a0 <? 0) then segs j [l]     (* empty range: one segment *)
+              else if by_segment_size
                 then segs j (split_at 0 (multiples (List.length l) (Z.to_nat a0) (Z.to_nat a0) (List.length l)) l)
                 else
                   (* a0 is a Python int when a is an atom (ZeroDivisionError), a NumPy int64 when a is an array (x // 0 = 0) *)
@@ -714,6 +714,8 @@ Definition m_split (a b : val) : res :=
       end
   | None => Unmod
   end.
+
+Definition m_split := m_split_gen split_by_segment_size.
 
 Fixpoint nats_of (l : list Z) : option (list nat) :=
   match l with
